@@ -261,6 +261,12 @@ func replayRegion(args []string) {
 				}
 			}
 			pid := fmt.Sprintf("%s#p%d", id, pat)
+			selQ, delQ := selQ, delQ
+			if pat == 1 {
+				// the second pattern writes the connectives as words: `and` / `or` are the same operators as & / |
+				kw := keywordForm(rc.E).Text()
+				selQ, delQ = "select * where "+kw, "delete where "+kw
+			}
 
 			switch c.prop {
 			case "C02", "C01":
@@ -733,4 +739,19 @@ func reversedVariants(e *Node) []*Node {
 		out = append(out, v)
 	}
 	return out
+}
+
+// keywordForm: the same tree with & and | written as the words and / or.
+func keywordForm(n *Node) *Node {
+	c := *n
+	if c.K == "bin" && c.Op == "&" {
+		c.Op = "and"
+	} else if c.K == "bin" && c.Op == "|" {
+		c.Op = "or"
+	}
+	c.A = make([]*Node, len(n.A))
+	for i, x := range n.A {
+		c.A[i] = keywordForm(x)
+	}
+	return &c
 }
